@@ -64,16 +64,18 @@ def r2(ctx, prog, cfgname):
     f = prog.fn("mi_block_next")
     cfg = f.cfg
     efault = prog.const("EFAULT")
-    hit = [q for p, q, e, pol in rl.edges_with_fact(f, rl.fact_call_false(f, "mi_is_in_same_page"))]
+    hit = [(p, q) for p, q, e, pol in rl.edges_with_fact(f, rl.fact_call_false(f, "mi_is_in_same_page"))]
     ok = bool(hit)
     w = None
     nexts = [dd["d"] for _, dd in rl.var_init_from(f, lambda j: rl.is_call(f, j, "mi_block_nextx"))]
-    for q in hit:
+    cut = True
+    for p_, q in hit:
         w = w or cfg.must_pass([q], cfg.exit_points(), lambda e: rl.is_call(f, e, "_mi_error_message") and f.cv(f.nodes[e]["args"][0]) == efault)
-        w = w or cfg.must_pass([q], cfg.exit_points(), lambda e: f.nodes[e]["k"] == "BinaryOperator" and f.nodes[e]["op"] == "=" and rl.var_of(f, f.nodes[e]["c"][0]) in nexts and f.cv(f.nodes[e]["c"][1]) == 0)
-    ctx.check(R, ok and w is None and bool(nexts), f.where(), "[%s] out-of-page link: error EFAULT and next = NULL on every path" % cfgname, key="C17.R2:cut", witness=w)
-    rets = [r for r in f.all(kind="ReturnStmt")]
-    ctx.check(R, all(rl.var_of(f, f.nodes[r].get("val", -1)) in nexts for r in rets), f.where(), "[%s] the (possibly cut) link is what is returned" % cfgname, key="C17.R2:ret")
+        # the bad link does not leave the function: NULL is returned (as `next = NULL; return next;` or as `return NULL;`)
+        cut = cut and rl.returns_only(f, q, 0, src=p_)
+    ctx.check(R, ok and w is None and cut and bool(nexts), f.where(), "[%s] out-of-page link: error EFAULT and NULL is returned on every path" % cfgname, key="C17.R2:cut", witness=w)
+    rets = [r for r in f.all(kind="ReturnStmt") if "val" in f.nodes[r]]
+    ctx.check(R, all(rl.var_of(f, f.nodes[r]["val"]) in nexts or f.cv(f.nodes[r]["val"]) == 0 for r in rets), f.where(), "[%s] the (possibly cut) link is what is returned" % cfgname, key="C17.R2:ret")
     g = prog.fn("mi_is_in_same_page")
     def other_seg(e, pol):
         return isinstance(e, int) and rl.rel(g, e, pol, lambda j: g.mentions_call(j, "_mi_ptr_segment"), lambda j: True) == "!="
@@ -169,13 +171,15 @@ def r5(ctx, prog, cfgname):
     R = ctx.rule("C17.R5", "codec: mi_ptr_decode is the inverse operation chain of mi_ptr_encode; canary and delta are written at allocation; delta <= bsize is validated; "
                            "at most MI_MAX_ALIGN_SIZE padding bytes are inspected")
     enc, dec = prog.fn("mi_ptr_encode"), prog.fn("mi_ptr_decode")
-    ex = [dd for _, dd in rl.local_decl(enc, lambda dd: "init" in dd)]
-    eret = [r for r in enc.all(kind="ReturnStmt")]
-    dp = [dd for _, dd in rl.local_decl(dec, lambda dd: "init" in dd)]
-    ok = len(ex) == 1 and len(eret) == 1 and len(dp) == 1
+    # by role: the encoder returns a chain of ^, +, rotations over one value variable (anything that is not a cached key);
+    # the decoder applies its chain to its `x` parameter in the local that is computed with a rotation
+    eret = [r for r in enc.all(kind="ReturnStmt") if "val" in enc.nodes[r] and enc.mentions_call(enc.nodes[r]["val"], ("mi_rotl", "mi_rotr"))]
+    dp = [dd for _, dd in rl.local_decl(dec, lambda dd: "init" in dd and dec.mentions_call(dd["init"], ("mi_rotl", "mi_rotr")))]
+    dp += [dict(init=dec.nodes[r]["val"]) for r in dec.all(kind="ReturnStmt") if "val" in dec.nodes[r] and dec.mentions_call(dec.nodes[r]["val"], ("mi_rotl", "mi_rotr"))]
+    ok = len(eret) == 1 and len(dp) == 1
     if ok:
-        xd = ex[0]["d"]
-        _, eops = chain(enc, enc.nodes[eret[0]]["val"], lambda j: enc.nodes[j]["k"] == "DeclRefExpr" and enc.nodes[j]["d"] == xd)
+        is_value = lambda j: enc.nodes[j]["k"] == "DeclRefExpr" and enc.nodes[j].get("dk") in ("local", "parm") and not rl.canon(enc, j).startswith("$2")
+        _, eops = chain(enc, enc.nodes[eret[0]]["val"], is_value)
         xparm = dec.param_id(1)
         _, dops = chain(dec, dp[0]["init"], lambda j: dec.nodes[j]["k"] == "DeclRefExpr" and dec.nodes[j]["d"] == xparm)
         inv = {"^": "^", "+": "-", "-": "+", "mi_rotl": "mi_rotr", "mi_rotr": "mi_rotl"}
